@@ -224,6 +224,12 @@ def run(chk, repo):
     rule_drain(chk, repo, 'C01.m')
     chk.clauses.append('C01.n the scan that merges adjacent variants into MNVs passes over co-located / overlapping variants and stops only strictly behind the first variant')
     mnv_scan(chk, repo, 'C01.n')
+    from rules.shared import reanchor_algebra
+    chk.clauses.append('C01.o a variant that is re-anchored (to_end_inclusion, shift_deletion_up) is rebuilt with the nucleotide at the boundary of its new location (index computed from the old location, or equivalently from the new one)')
+    reanchor_algebra(chk, repo, 'C01.o')
+    from rules.shared import slice_keeps_own_fields
+    chk.clauses.append('C01.p a slice of a sequence record with coordinates keeps every field of its own constructor (orf, selenocysteine; locations recomputed): transcript prefixes built for fusions keep their Sec positions')
+    slice_keeps_own_fields(chk, repo, 'C01.p')
 
 
 def skip_guard_contract(chk, repo, rid):
